@@ -153,6 +153,18 @@ class ParamFrame(PyModel):
     def copy(self, deep=True):
         return ParamFrame(self.path, self.version)
 
+    @property
+    def index(self):
+        from ..pdmodel import Index
+        return Index.range(3)         # a plain RangeIndex: parameter files are read without an index column
+
+    @property
+    def shape(self):
+        return (3, 3)
+
+    def __len__(self):
+        return 3
+
 
 def file_models(files, calls):
     """hooks for pandas.read_csv / read_excel over the abstract file system `files`"""
@@ -185,7 +197,16 @@ def file_models(files, calls):
             if n == sheet_name:
                 return mk(r)
         raise PyRaise("ValueError", None, f"Worksheet named '{sheet_name}' not found")
-    return {"pandas.read_csv": read_csv, "pandas.read_excel": read_excel}
+    class _MultiIndexType(PyModel):
+        """pd.MultiIndex as a type: the tables of this world (read from files) never carry one"""
+        def isinstance_check(self, v):
+            from ..pdmodel import Index
+            return isinstance(v, Index) and v.multi
+
+        def from_product(self, iterables, names=None, **k):
+            from ..pdmodel import MultiIndexType
+            return MultiIndexType().from_product(iterables, names=names, **k)
+    return {"pandas.read_csv": read_csv, "pandas.read_excel": read_excel, "pandas.MultiIndex": _MultiIndexType()}
 
 
 # ------------------------------------------------------------------ the checker
